@@ -9,7 +9,7 @@ open Model.Merge
 
 /-- voice and staff numbers start from 1 (MusicXML; "voice numbers start from 1" in `merge_parts`) -/
 def NumberedFrom1 (ps : List APart) : Prop :=
-  ∀ p ∈ ps, ∀ e ∈ p.elems, (∀ v ∈ e.voice, 1 ≤ v) ∧ (∀ s ∈ e.staff, 1 ≤ s)
+  ∀ p ∈ ps, ∀ e ∈ allElems p, (∀ v ∈ e.voice, 1 ≤ v) ∧ (∀ s ∈ e.staff, 1 ≤ s)
 
 -- ================================================================ a concrete, non-trivial instance
 
@@ -23,14 +23,16 @@ def exA : APart := { pid := 0, divs := 3, elems := [
   { oid := 4, cls := classId "Note", start := 3, stop := some 9, voice := some 1, staff := some 1, pitch := some 60, tiePrev := true, chain := [] },
   { oid := 5, cls := classId "Note", start := 9, stop := some 12, voice := some 1, staff := none, pitch := some 64, tiePrev := false, chain := [] }] }
 
-/-- part B, divisions 4: two notes in voices 1 and 3, a grace note, a measure, a tempo, words on staff 1 -/
+/-- part B, divisions 4: two notes in voices 1 and 3, a grace note, a measure, a tempo, words on staff 1; a slur that
+ends with the last note and whose start is not in the score (on the timeline by its end only) -/
 def exB : APart := { pid := 1, divs := 4, elems := [
   { oid := 10, cls := classId "Note", start := 0, stop := some 6, voice := some 1, staff := some 1, pitch := some 48, tiePrev := false, chain := [] },
   { oid := 11, cls := classId "GraceNote", start := 0, stop := some 0, voice := some 1, staff := some 1, pitch := some 50, tiePrev := false, chain := [] },
   { oid := 12, cls := classId "Measure", start := 0, stop := some 16, voice := none, staff := none, pitch := none, tiePrev := false, chain := [] },
   { oid := 13, cls := classId "Tempo", start := 0, stop := none, voice := none, staff := none, pitch := none, tiePrev := false, chain := [] },
   { oid := 14, cls := classId "Words", start := 0, stop := none, voice := none, staff := some 1, pitch := none, tiePrev := false, chain := [] },
-  { oid := 15, cls := classId "Note", start := 6, stop := some 16, voice := some 3, staff := none, pitch := some 55, tiePrev := false, chain := [] }] }
+  { oid := 15, cls := classId "Note", start := 6, stop := some 16, voice := some 3, staff := none, pitch := some 55, tiePrev := false, chain := [] }], tails := [
+  { oid := 16, cls := classId "Slur", start := 0, stop := some 16, voice := none, staff := none, pitch := none, tiePrev := false, chain := [], refs := [15] }] }
 
 /-- part C, divisions 2: five simultaneous voices on one staff -/
 def exC : APart := { pid := 2, divs := 2, elems := (List.range 5).map fun v =>
